@@ -62,6 +62,7 @@ fn take_first_image_children(n: &mut Node) -> Option<Vec<Node>> {
 
 pub fn run(n: usize, rng: &mut Rng, rep: &mut Report) {
     let md = Cfg::cmark_only().build();
+    let md_ctx = { let mut c = Cfg::cmark_only(); c.mask |= 1 << crate::cfg::STRIKE; c.build() };
     let corpus = ["![a \\* &amp; b\nc](x)", "![*e* `c` [l](u) ![i](v) <http://a.b>](x)", "![a  \nb\\\nc](x)",
                   "![*](x)", "![**](x)", "![_](x)", "![a *_* b](x)", "![see [*](/n) below](x)", "![~](x)", "![\nfoo](x)", "![a&#10;\nb](x)", "![a ![\nb](/i) c](x)"];
     let deep = format!("![{}x*{}](/x)", "*a ".repeat(300), " b*".repeat(299));
@@ -94,6 +95,28 @@ pub fn run(n: usize, rng: &mut Rng, rep: &mut Report) {
                         if disp != got && !disp.contains("\n\n") && !disp.starts_with('\n') {
                             rep.violation("alt-vs-rendered-description", input.clone(), format!("alt {:?}, but the description rendered as inline text displays {:?}", got, disp));
                         }
+                    }
+                }
+            }
+        }
+        // the description is tokenized on its own: what stands BEFORE the image in the same paragraph (closed and
+        // unmatched delimiter runs of every marker) cannot change what the description displays
+        if let Some((alone, _)) = second.clone() {
+            let pre = *rng.pick(&["*x* y* ", "_a_ b_ ", "**s** t** ", "a* b ", "~~a~~ b~~ ", "x** *y ", "__p__ q__ r_ ", "w ", "*x* y* _a_ b_ "]);
+            let d2 = format!("{}{}", pre, d);
+            if let Ok(t2) = crate::util::guarded(|| md_ctx.parse(&d2)) {
+                let mut imgs = vec![];
+                images(&t2, &mut imgs);
+                if let Some(im) = imgs.first() {
+                    let html = im.render();
+                    let got2 = html.find(" alt=\"").map(|i| { let r = &html[i + 6..]; attr_unescape(&r[..r.find('"').unwrap_or(r.len())]) }).unwrap_or_default();
+                    let alone2 = if std::ptr::eq(&md, &md_ctx) { alone.clone() } else {
+                        let t = md_ctx.parse(&d); let mut v = vec![]; images(&t, &mut v);
+                        v.first().map(|im| { let html = im.render(); html.find(" alt=\"").map(|i| { let r = &html[i + 6..]; attr_unescape(&r[..r.find('"').unwrap_or(r.len())]) }).unwrap_or_default() }).unwrap_or_default()
+                    };
+                    rep.stats.count("compared_in_context");
+                    if got2 != alone2 {
+                        rep.violation("alt-context-dependent", format!("src={}", hexs(&d2)), format!("alt {:?} after the text {:?}, but {:?} when the image stands alone", got2, pre, alone2));
                     }
                 }
             }
